@@ -7,7 +7,7 @@ From Coq Require Import Lia ZifyBool.
     line numbers passed to [report_unfixed] are node positions (>= 0); the changesets returned by the dependency writers
     are well formed (oracle contract, tested by the harness; the writers belong to C14). *)
 Definition run_ok (T : tables) (r : cm_run) : Prop :=
-  good_pipe T (cr_pipe r) /\ Forall file_ok (files_of r) /\
+  good_pipe T (cr_pipe r) /\ Forall (fun f => file_ok f /\ file_pre T (cr_pipe r) f) (files_of r) /\
   (forall ty cs, In (ty, Some cs) (cr_stores r) -> changeset_ok cs = true).
 
 (* ---------------- one result per codemod, in order ---------------- *)
@@ -44,8 +44,8 @@ Proof.
   assert (Hw : view_wf (match cr_files r with Some fs => fold_left add_file_view (map (pipe_file T (cr_pipe r)) fs) v | None => v end)).
   { unfold files_of in HF. destruct (cr_files r) as [fs|]; [|exact Hv].
     revert v Hv. induction fs as [|f fs IH]; intros v Hv; cbn; [exact Hv|].
-    inversion HF; subst. apply IH; [assumption|].
-    destruct (pipe_file_ok T (cr_pipe r) f HV HP H1) as [Hc Hu]. destruct Hv as [Hv1 Hv2].
+    inversion HF as [|? ? [Hf1 Hf2] HF']; subst. apply IH; [assumption|].
+    destruct (pipe_file_ok T (cr_pipe r) f HV HP Hf1 Hf2) as [Hc Hu]. destruct Hv as [Hv1 Hv2].
     split; cbn; rewrite forallb_app; [rewrite Hv1, Hc|rewrite Hv2, Hu]; reflexivity. }
   revert Hw. generalize (match cr_files r with Some fs => fold_left add_file_view (map (pipe_file T (cr_pipe r)) fs) v | None => v end).
   intros w [Hw1 Hw2]. unfold deps_view.
@@ -179,7 +179,7 @@ Definition w_file (path : str) (parse_ok : bool) (raw : traw) : file_run :=
 Definition w_run (p : pipe_kind) (fs : list file_run) : cm_run :=
   {| cr_cm := w_cm; cr_pipe := p; cr_files := Some fs; cr_stores := []; cr_note_ok := []; cr_note_fail := [] |}.
 Definition w_T (lv : libcst_apply_variant) (xv : xml_apply_variant) (V : validators) : tables :=
-  {| t_libcst := lv; t_xml := xv; t_fail := FailureLineZero; t_val := V |}.
+  {| t_libcst := lv; t_xml := xv; t_regex := RegexFailureHandled; t_fail := FailureLineZero; t_val := V |}.
 Definition w_R (T : tables) : rtables :=
   {| t_pipe := T; t_apply := ApplyEarlyReturnThenLoop; t_compile := CompileOnePerCodemodInOrder; t_update := UpdateByFindingId;
      t_build := BuildRunExcludeNone |}.
@@ -404,5 +404,37 @@ Proof.
   - repeat constructor.
   - intros ty cs [H|[]]. inversion H; subst. reflexivity.
   - repeat constructor.
+  - intros ty cs [].
+Qed.
+
+(* ---------------- the regex pipeline ---------------- *)
+(** With failure handling no file can abort the run (so the first clause of [file_pre] is automatic); without it a file
+    that cannot be decoded, or a pipeline whose [change_description] is "", aborts the run and no report is written. *)
+Definition regex_statement (rv : regex_apply_variant) : Prop :=
+  match rv with
+  | RegexFailureHandled => forall T p f, t_regex T = rv -> pipe_aborts T p f = false
+  | RegexNoFailureHandling =>
+      exists T f, t_regex T = rv /\ strict (t_val T) /\ file_ok f /\
+                  pipe_aborts T (PRegex []) f = true /\ report_opt (w_R T) w_iv false [w_run (PRegex []) [f]] = None
+  end.
+Lemma regex_all rv : regex_statement rv.
+Proof.
+  destruct rv; cbn.
+  - refine (ex_intro _ {| t_libcst := LibcstGuardChangesDiff; t_xml := XmlDescOrNoneDiffGuard; t_regex := RegexNoFailureHandling;
+                          t_fail := FailureLineZero; t_val := V1 |}
+             (ex_intro _ (w_file a_py true (TDone [w_req 1 []] [43%N]))
+                (conj eq_refl (conj strict_V1 (conj (conj eq_refl eq_refl) (conj _ _)))))); vm_compute; reflexivity.
+  - intros T p f H. destruct p; cbn; try reflexivity. unfold regex_aborts. rewrite H. reflexivity.
+Qed.
+
+(** a regex run that satisfies the premises of the laws, with a changeset *)
+Definition w_regex_runs : list cm_run :=
+  [w_run (PRegex [100%N]) [w_file a_py true (TDone [w_req 2 []] [43%N]); w_file b_py false TRaise]].
+Lemma w_regex_runs_ok lv xv : forall r, In r w_regex_runs -> run_ok (w_T lv xv V1) r.
+Proof.
+  intros r [<-|[]]. split; [exact I|]. split.
+  - constructor; [|constructor; [|constructor]].
+    + split; [split; reflexivity|]. split; [reflexivity|]. cbn. intros _. discriminate.
+    + split; [split; reflexivity|]. split; [reflexivity|exact I].
   - intros ty cs [].
 Qed.
